@@ -549,7 +549,7 @@ theorem m_storeFields (C : HeapCfgOK c) : ∀ (fuel : Nat) (toStore rem : Ctx) (
       ∃ μ', mFwd c code μ = some (μ', .next) ∧ HRelM c μ' h' ∧
         (∃ w, μ'.val (posTemp (2 * rem.length)) = some w ∧ w.toNat = ptr) ∧
         (∀ u, u ≠ .reg TEMP → u ≠ .reg HEAP → u ≠ .reg FREE →
-          (∀ j, u ≠ posTemp (2 * (rem.length + j))) → μ'.val u = μ.val u) := by
+          (∀ j, j ≤ toStore.length - 1 → u ≠ posTemp (2 * (rem.length + j))) → μ'.val u = μ.val u) := by
   intro fuel
   induction fuel with
   | zero => intro toStore _ _ _ _ _ _ _ _ _ hf; exact absurd hf (Nat.not_lt_zero _)
@@ -582,7 +582,7 @@ theorem m_storeFields (C : HeapCfgOK c) : ∀ (fuel : Nat) (toStore rem : Ctx) (
           exact H.setT n2 n3 _
         · exact ⟨0#64, by simp, by simp [posMap]⟩
         · intro u _ _ _ hj
-          have := hj 0
+          have := hj 0 (Nat.zero_le _)
           simp only [Nat.add_zero] at this
           simp [this]
       | other =>
@@ -624,7 +624,7 @@ theorem m_storeFields (C : HeapCfgOK c) : ∀ (fuel : Nat) (toStore rem : Ctx) (
                 some (μ', .next) ∧ HRelM c μ' h' ∧
               (∃ w, μ'.val (posTemp (2 * rem.length)) = some w ∧ w.toNat = ptr) ∧
               (∀ u, u ≠ .reg TEMP → u ≠ .reg HEAP → u ≠ .reg FREE →
-                (∀ j, u ≠ posTemp (2 * (rem.length + j))) → μ'.val u = μ.val u) := by
+                (∀ j, j ≤ toStore.length - 1 → u ≠ posTemp (2 * (rem.length + j))) → μ'.val u = μ.val u) := by
         intro pre μ1 s1 hnl xpre H1 F1 hheap hop1
         obtain ⟨wH, hH, eH⟩ := H1.heap
         cases hsv : Scc.Heap.storeValues s1 (fs.drop rl) s1.heap
@@ -671,7 +671,8 @@ theorem m_storeFields (C : HeapCfgOK c) : ∀ (fuel : Nat) (toStore rem : Ctx) (
                 (hl4.mono (Nat.le_refl _) hk5)).append (hl5.mono (by omega) (Nat.le_refl _))
             · exact mFwd_seq c (mFwd_seq c (mFwd_seq c (mFwd_seq c xpre x2) (mFwd_comment c _ μ2)) x3) x4
             · intro u hT hHp hFr hj
-              rw [F4 u hT hHp hFr hj, F3 u (hj rl) hT hHp hFr, F2 u hT, F1 u hT]
+              rw [F4 u hT hHp hFr (fun j hjl => hj j (by rw [hlt2] at hjl; omega)),
+                F3 u (hj rl (by omega)) hT hHp hFr, F2 u hT, F1 u hT]
       simp only [hie, Bool.false_eq_true, if_false, hrl']
       cases pos with
       | last =>
@@ -732,8 +733,9 @@ blocks, each block taken by `acquire_block` — exactly as `Scc.Heap.storeObj` d
 From every boundary state representing a heap on which the model succeeds, the code runs to its end;
 the final state is a boundary state with the same `rsp`, represents the model's result heap, and the
 first temporary of position `|rem|` holds the object pointer (0 for an object without fields).
-Changed: TEMP, HEAP, FREE, the flags, the heap, and first temporaries of positions `≥ |rem|` (targets of
-`acquire_block`); every variable of `rem` and every second temporary is preserved. -/
+Changed: TEMP, HEAP, FREE, the flags, the heap, and first temporaries of the stored positions (targets of
+`acquire_block`; position `|rem|` alone for an object without fields); every variable of `rem`, every
+second temporary and everything beyond the stored positions is preserved. -/
 theorem store_contract {c : MachCfg} {la : String → Option Nat} {st : State} {sp : Word}
     (h8 : c.heapBase % 8 = 0) (B : Boundary c st sp) {h h' : Scc.Heap.HState} (R : HeapRel c st h)
     {toStore rem : Ctx} {fs : List Scc.Heap.Field} (hcap : 2 * (rem.length + toStore.length) ≤ 267)
@@ -743,15 +745,15 @@ theorem store_contract {c : MachCfg} {la : String → Option Nat} {st : State} {
       ∃ st', execFwd c la code st = .ok (st', .next) ∧ Boundary c st' sp ∧ HeapRel c st' h' ∧
         (∃ w, tempVal sp st' (posTemp (2 * rem.length)) = some w ∧ w.toNat = ptr) ∧
         FrameT sp st st' (fun u => u = .reg TEMP ∨ u = .reg HEAP ∨ u = .reg FREE ∨
-          ∃ j, u = posTemp (2 * (rem.length + j))) := by
+          ∃ j, j ≤ toStore.length - 1 ∧ u = posTemp (2 * (rem.length + j))) := by
   obtain ⟨code, k', hrun, hk, hl, μ', hx, H', ⟨w, hw, ew⟩, hfr⟩ :=
     m_storeFields (heapCfgOK_of_boundary h8 B) (toStore.length + 1) toStore rem .last fs 0 (mview sp st) h h'
       ptr k (Nat.lt_succ_self _) (heapRel_mview (sp := sp) R) hE hcap (fun e => by cases e) hop
   obtain ⟨st', e, B', M', F⟩ := m_to_machine la B hx
     (changed := fun u => u = .reg TEMP ∨ u = .reg HEAP ∨ u = .reg FREE ∨
-      ∃ j, u = posTemp (2 * (rem.length + j)))
+      ∃ j, j ≤ toStore.length - 1 ∧ u = posTemp (2 * (rem.length + j)))
     (fun u hu => hfr u (fun e => hu (Or.inl e)) (fun e => hu (Or.inr (Or.inl e)))
-      (fun e => hu (Or.inr (Or.inr (Or.inl e)))) (fun j e => hu (Or.inr (Or.inr (Or.inr ⟨j, e⟩)))))
+      (fun e => hu (Or.inr (Or.inr (Or.inl e)))) (fun j hj e => hu (Or.inr (Or.inr (Or.inr ⟨j, hj, e⟩)))))
   have hok : OpndOK (posTemp (2 * rem.length)) := (tempOK_posTemp (by omega)).opnd
   exact ⟨code, k', hrun, hk, hl, st', e, B', heapRel_of_mrep M' H', ⟨w, by rw [M'.vals _ hok]; exact hw, ew⟩, F⟩
 
